@@ -69,7 +69,7 @@ DefragCalls(s) ==
   {[op |-> "Defrag", m |-> m] : m \in {x \in {0, 1, 2, 3} : MaxNilRun(s.e, 0, 0) < DefragLimit(x)}}
 
 AuxCalls ==
-       {[op |-> "SetAuxiliary", form |-> f] : f \in {"none", "nil", "map"}}
+       {[op |-> "SetAuxiliary", form |-> f] : f \in {"none", "nil", "map", "map0"}}
   \cup {[op |-> "SetLogger", arg |-> a] : a \in {"stdout", "STDOUT", "int1", "stderr", "StdErr", "int2", "custom", "off", "discard", "int0", "nil", "junk", "int7"}}
 
 SettingCalls(s) ==
